@@ -334,21 +334,12 @@ theorem macWordMatches_iff (O : Oracle) (regexes : List Str) (w : Str) :
 theorem macTexts_spec (k : Mac.Kind) (v : Nat) :
     macTexts k v = [Mac.dash k v, Mac.colon k v, Mac.cisco k v, (Mac.dash k v).filter (· != '-')] := rfl
 
-/-- a word classified as kind `k` with value `v` is accepted by C16's constructor with that value -/
-theorem macOf_sound (w : Str) (k : Mac.Kind) (v : Nat) (h : macOf w = some (k, v)) :
-    Mac.parseObj k w = .ok v := by
-  unfold macOf at h
-  split at h
-  · cases h
-  · split at h
-    · split at h
-      · cases h; assumption
-      · cases h
-    · split at h
-      · split at h
-        · cases h; assumption
-        · cases h
-      · cases h
+/-- **macgrep_word_is_mac** (with C16): `MACEUISearch` classifies a word as kind `k` (MAC or
+EUI-64) with value `v` exactly when C16's constructor of that kind accepts the word with that
+value — i.e. (C16 `accepted_iff`) when it instantiates one of the four spellings of that size, in
+any letter case. -/
+theorem macgrep_word_is_mac (w : Str) (k : Mac.Kind) (v : Nat) :
+    macOf w = some (k, v) ↔ Mac.parseObj k w = .ok v := macOf_iff w k v
 
 /-- **macgrep_filter**: word mode prints exactly the matching words, in input order, once per
 occurrence, as they are written. -/
